@@ -31,6 +31,18 @@ CHECKS = {
    note=TB + "Assumes the planner has no hidden state besides _ratios/_offsets and the two lru caches (validated by the "
         "fresh-process differential). Axioms: none.",
    tech="Rocq proof: cache-coherence invariant by induction over histories (parametric in the planner)", ref="DESIGN.md §4 C08"),
+ "C16": dict(
+   text="Theorem C16_bisim_sound: for ANY scanner (the regex engine), ANY tree-building callbacks and any input, two LALR tables related by a state map that "
+        "respects every shift/reduce/goto entry, the start state and the end state drive Lark's runtime (ParserState.feed_token with contextual accept sets, modelled "
+        "in Model/LR.v) to identical outcomes: same accept/reject, same tree; C16_same_accept_sets. Per run both artefacts are regenerated: the shipped tables from "
+        "_parser.DATA/MEMO and fresh tables by running the Makefile's generator command on measured.lark; Coq discharges shipped_is_fresh_unit/quantity (all states and "
+        "entries), tables closed, end states without actions, rules_equal, terminals_equal, options_equal. Both real parsers also run on generated accepted and rejected "
+        "strings (trees compared canonically); when an obligation breaks, the access path of the first table difference and the characters on which two terminal "
+        "regexes disagree are turned into candidate inputs.",
+   note=TB + "Modelled, not verified: the embedded Lark runtime (driver + contextual lexer are modelled; regex matching and callbacks are parameters of the theorem, "
+        "so it holds whatever they do as long as both parsers use the same terminal definitions and rules, which is checked). The generator is the installed Lark 1.3.1; "
+        "the shipped module embeds 1.1.2. Axioms: none.",
+   tech="Rocq proof: simulation between LALR drivers by induction on fuel + reflective vm_compute check of the regenerated tables", ref="DESIGN.md §4 C16"),
  "C18": dict(
    text="Theorems over the reals for every base b > 0 (b <> 1), prefix value p <> 0, power ratio k <> 0 and reference r > 0: C18_level_definition "
         "(level = (k/p) log_b(q/r)), C18_quantify_definition, C18_roundtrip_quantity, C18_roundtrip_level, C18_level_equals_quantity (a level equals a "
